@@ -100,6 +100,17 @@ def run_shapes(ctx, pt):
         judge(ctx, '%s/%s/blocks-with-zero-words' % (modeclass(L, n), 'keyed' if kl else 'unkeyed'), d, L, kl, SHAPE_ROUNDS, zlead(M))
 
 
+def pts_huge(tier):
+    return [(64, 4097 * 512 + 1), (1, 4097 * 512)] if tier == 'thorough' else []
+
+
+def run_huge(ctx, pt):
+    """more than 4096 leaf blocks (over 2 MiB) in one level (sampled, thorough only)"""
+    L, n = pt
+    M = expander(4096, 5) * (n // 4096 + 1)
+    judge(ctx, 'more-than-4096-leaves', 256, L, 0, SHAPE_ROUNDS, M[:n])
+
+
 def pts_bits(tier):
     pts = []
     for L in (64, 0, 1):
@@ -167,6 +178,7 @@ def subchecks():
         Sub('digest-sizes', pts_d, run_d, engine='P', bound='every d in 1..512 (quick: every 5th + boundary sizes) on a 3-byte message, tree and sequential mode, 12 rounds'),
         Sub('shapes', pts_shapes, run_shapes, engine='P',
             bound='L in {0,1,2,3,64} x key length {0,1,8,63,64} x message byte length in {0..3, 383..385, 511..513, 767..769, 1023..1025, 1535..1537, 2047..2049, 5, 16, 17-, 64+, 65 leaf blocks} (quick: subset above 17 leaves / for odd key lengths) x d in 9 (4) sizes at lengths 3 and 513, 12 rounds'),
+        Sub('huge', pts_huge, run_huge, engine='P', exhaustive=False, chunk=1, bound='thorough only: 4097 leaf blocks (+1 byte) in tree and hybrid mode'),
         Sub('bit-lengths', pts_bits, run_bits, engine='P', bound='every L\' mod 8 at 1, 512, 513, 2049, 2561 (thorough 8704) bytes in tree, sequential and hybrid mode; containers 7, 520 and 3000 bytes longer'),
         Sub('rounds', pts_rounds, run_rounds, engine='P', bound='default round count 40+d/4 (max(80,.) with a key) for d in {8,64,128,160,384} (thorough 11 sizes) keyed, unkeyed and with all-zero / all-ff keys; explicit rounds 1..17 (subset), 32, 80, 104, 167..170, 200, 255..257, 511 (thorough 500, 1023, 1024, 4095); rounds 1, 5 (thorough 9, 40, 168) x L in {64,0,1} x key length {0,8,64} x 3-4 lengths'),
     ]
